@@ -20,6 +20,7 @@ Differences outside the projection (WHICH benc error is returned; benc's decoder
     bin/check C17 [--tier quick|thorough] [--replay replays/C17/<file>.json | corpus/codec/<file>.json]
 """
 import json
+import re
 import shutil
 from pathlib import Path
 
@@ -107,6 +108,54 @@ def run_harness(ctx, exe, driver, replay=None):
         return None, "rc=%s (no readable report: %s)\n%s" % (rc, ex, out[-6000:])
 
 
+def coq_eval_tie(ctx, driver):
+    """Evaluates file_read / benc_decode of the corpus byte strings INSIDE Coq (vm_compute) and compares the outcome classes with
+    what the extracted driver answers: ties extraction + the hand-written driver to the definitions the theorems are about.
+    -> dict(compared, disagreements=[...], skipped=reason or None)"""
+    out = {"compared": 0, "disagreements": [], "skipped": None}
+    inputs = []
+    for f in sorted(CORPUS.glob("*.json")):
+        try:
+            c = json.loads(f.read_text())
+            if c.get("kind") == "bytes" and len(c.get("hex", "")) <= 200:
+                inputs.append((f.name, bytes.fromhex(c["hex"])))
+        except Exception:  # noqa
+            continue
+    inputs += [("example:one-hold", bytes.fromhex("01027331010161016b050000000101010101010101")), ("example:hint-2^20+1", bytes.fromhex("818040")),
+               ("example:11-byte-varint", bytes.fromhex("8080808080808080808001")), ("example:wrong-terminator", bytes.fromhex("0001010102"))]
+    if driver is None or not inputs or not vcheck.coq_vo_ok("Model/Codec.v"):
+        out["skipped"] = "no driver / no compiled model"
+        return out
+    lst = "; ".join("[" + "; ".join("x%02x" % b for b in bs) + "]" for _, bs in inputs)
+    v = ctx.work / "EvalTie.v"
+    v.write_text(
+        "From Ldlm Require Import Model.Base Model.Codec.\n"
+        "Definition cls (r : dec_result) : nat := match r with DecOk _ => 0 | DecErr EBufTooSmall => 1 | DecErr EOverflow => 2\n"
+        "  | DecErr EVerifyMarshal => 3 | DecPanic WhySliceBounds => 4 | DecPanic WhyMakeSliceLen => 5 | DecPanic WhyFuel => 6 | DecAlloc _ => 7 end.\n"
+        "Eval vm_compute in (map (fun b : list byte => (cls (file_read (Fs b None)), cls (benc_decode b))) [%s]).\n" % lst)
+    with vcheck.Lock("coq"):
+        rc, txt = vcheck.sh(["coqc", "-Q", str(vcheck.COQ), "Ldlm", "-w", "-notation-overridden", "-o", str(ctx.work / "EvalTie.vo"), str(v)], cwd=ctx.work, timeout=300)
+    pairs = re.findall(r"\(\s*(\d+)\s*,\s*(\d+)\s*\)", txt)
+    if rc != 0 or len(pairs) != len(inputs):
+        out["skipped"] = "coqc on the evaluation file failed: " + txt[-300:]
+        return out
+    names = {0: "ok", 1: "err buftoosmall", 2: "err overflow", 3: "err verifymarshal", 4: "panic slicebounds", 5: "panic makeslicelen", 6: "panic fuel", 7: "alloc"}
+    rc, ans = vcheck.sh([str(driver)], cwd=ctx.work, timeout=120, stdin="".join("D %s\n" % (bs.hex() or "-") for _, bs in inputs))
+    lines = [l for l in ans.splitlines() if " | " in l]
+    if rc != 0 or len(lines) != len(inputs):
+        out["skipped"] = "the driver did not answer: " + ans[-300:]
+        return out
+    short = lambda t: " ".join(t.split()[:2]) if t.split()[0] in ("err", "panic") else t.split()[0]  # noqa
+    for (name, bs), (a, b), line in zip(inputs, pairs, lines):
+        cols = line.split(" | ")
+        got = (short(cols[2]), short(cols[1]))
+        want = (names[int(a)], names[int(b)])
+        out["compared"] += 1
+        if got != want:
+            out["disagreements"].append({"input": name, "hex": bs.hex(), "coq_vm_compute (file_read, benc_decode)": want, "extracted_driver": got})
+    return out
+
+
 def clip(s, n=300):
     s = str(s)
     return s if len(s) <= n else s[:n] + "..."
@@ -123,7 +172,7 @@ def replay_of(f, n_same, coq_ok):
             "property": "value or error for any bytes; Write then Read = the map written; after a rewrite the file is exactly the new encoding",
             "violated_rule": RULE_TEXT.get(f["rule"], f["rule"]),
         },
-        "observed_real": f.get("real"), "observed_model": f.get("model"),
+        ("observed_real_on_the_case_before_shrinking" if f.get("shrunk") else "observed_real"): f.get("real"), "observed_model": f.get("model"),
         "generator": f.get("origin"), "generated_case_id": f.get("case_id"), "failing_write_of_sequence": f.get("step") or None,
         "other_cases_failing_the_same_rule": n_same,
         "theorems_checked": coq_ok,
@@ -146,7 +195,7 @@ def fill_coverage(ctx, rep, model_note):
         "cases": rep.get("cases"), "cases_run": rep.get("cases_run"), "cases_not_run_deadline": rep.get("cases_not_run_deadline"),
         "corpus_files": rep.get("corpus_files"), "corpus_unreadable": rep.get("corpus_unreadable"),
         "comparisons": ties,
-        "real_calls": rep.get("real_calls"), "model_calls": rep.get("model_calls"), "model_evaluations_skipped": rep.get("model_evaluations_skipped"),
+        "real_calls": rep.get("real_calls"), "model_calls": rep.get("model_calls"), "model_evaluations_skipped": rep.get("model_evaluations_skipped"), "model_skip_reasons": rep.get("model_skip_reasons"),
         "real_child_deaths_or_timeouts": rep.get("real_child_deaths_or_timeouts"),
         "real_outcome_classes": rep.get("real_outcome_classes"), "model_outcome_classes": rep.get("model_outcome_classes"),
         "error_kinds": rep.get("error_kinds"),
@@ -200,6 +249,14 @@ def run(ctx):
     exe, blog = build_harness(ctx)
     if exe is None:
         ctx.note("tie: harness/codecdiff does not build against %s" % vcheck.REPO)
+    ext = coq_eval_tie(ctx, driver) if not ctx.replay else {"compared": 0, "disagreements": [], "skipped": "replay"}
+    cov["ties"]["coq_vm_compute_vs_extracted_driver"] = ext
+    if ext["disagreements"]:
+        ctx.violation({"broken": "extraction", "disagreements": ext["disagreements"]},
+                      "the extracted model driver and Coq's own evaluation of Model/Codec.v disagree on %d input(s)" % len(ext["disagreements"]),
+                      name="extraction.json", no_failing_input=True)
+    elif ext["skipped"]:
+        ctx.note("coq/driver tie skipped: " + clip(ext["skipped"], 200))
 
     if ctx.replay:
         return do_replay(ctx, exe, driver, blog, coq_ok)
@@ -208,7 +265,7 @@ def run(ctx):
     if exe is not None:
         rep, rlog = run_harness(ctx, exe, driver or Path("/nonexistent/codecdriver"))
         if rep:
-            ctx.note("tie: %s cases run (%s not run: deadline), %s evaluations on the real store, findings %s, %.1fs" % (
+            ctx.note("tie: %s cases run (%s not run: deadline or early stop), %s evaluations on the real store, findings %s, %.1fs" % (
                 rep.get("cases_run"), rep.get("cases_not_run_deadline"), rep.get("evaluations"), rep.get("findings_by_level_and_rule") or "none", rep.get("wall_s") or 0))
     fill_coverage(ctx, rep, model_note)
     if not cov.get("samples"):
